@@ -143,6 +143,10 @@ struct Sim {
     total_calls: u64,
     /// writes through descriptors we do not model (mmap MAP_SHARED|PROT_WRITE etc.)
     writable_maps: u64,
+    /// live mappings of tracked files: start address -> (file, open file description). A
+    /// mapping keeps its open file description alive, and with it the flock held through it,
+    /// after the descriptor is closed (as in the kernel).
+    maps: HashMap<usize, (u32, u32)>,
 }
 
 static SIM: Mutex<Option<Sim>> = Mutex::new(None);
@@ -796,8 +800,8 @@ pub unsafe extern "C" fn close(fd: c_int) -> c_int {
             s.calls += 1;
             s.total_calls += 1;
             if let Some(st) = s.fds.remove(&fd) {
-                // last descriptor of the open file description: release its flock
-                s.files[st.fid as usize].locks.retain(|(o, _)| *o != st.ofd);
+                // last reference to the open file description: release its flock
+                release_if_unreferenced(s, st.fid, st.ofd);
                 if s.logging {
                     s.log.push(Ev::Close { fid: st.fid });
                 }
@@ -1092,7 +1096,40 @@ pub unsafe extern "C" fn mmap64(
             }
         });
     }
-    libc::syscall(libc::SYS_mmap, addr, len, prot, flags, fd, off) as *mut c_void
+    let p = libc::syscall(libc::SYS_mmap, addr, len, prot, flags, fd, off) as *mut c_void;
+    if fd >= 0 && p != libc::MAP_FAILED && tracked(fd) {
+        with(|s| {
+            let st = &s.fds[&fd];
+            let (fid, ofd) = (st.fid, st.ofd);
+            s.maps.insert(p as usize, (fid, ofd));
+        });
+    }
+    p
+}
+
+#[no_mangle]
+pub unsafe extern "C" fn munmap(addr: *mut c_void, len: size_t) -> c_int {
+    let known = ACTIVE.load(Ordering::Relaxed) && !bypassed() && with(|s| s.maps.contains_key(&(addr as usize)));
+    if known {
+        maybe_yield();
+        with(|s| {
+            s.total_calls += 1;
+            if let Some((fid, ofd)) = s.maps.remove(&(addr as usize)) {
+                release_if_unreferenced(s, fid, ofd);
+            }
+        });
+    }
+    libc::syscall(libc::SYS_munmap, addr, len) as c_int
+}
+
+/// The flock of an open file description goes away with its last reference: no descriptor
+/// and no mapping left.
+fn release_if_unreferenced(s: &mut Sim, fid: u32, ofd: u32) {
+    let by_fd = s.fds.values().any(|st| st.ofd == ofd);
+    let by_map = s.maps.values().any(|(_, o)| *o == ofd);
+    if !by_fd && !by_map {
+        s.files[fid as usize].locks.retain(|(o, _)| *o != ofd);
+    }
 }
 
 /// flock(2) per open file description, implemented in-process.  The kernel's flock is never
